@@ -1,7 +1,7 @@
 (* C18 -- statements only; see DESIGN.md section 6 C18.  Theorems are added as the proofs land;
    the witnesses below are evaluated in the kernel on the whole-parser model. *)
 From Coq Require Import String.
-From MdIt Require Import Prims Tables Tree Render Core Dump Dispatch.
+From MdIt Require Import Prims Tables Escape Tree Render Core Dump Dispatch TreeProofs RenderProofs.
 Local Open Scope string_scope.
 Local Open Scope list_scope.
 Local Open Scope N_scope.
@@ -19,3 +19,37 @@ c](x)" = bs "<p><img src=""x"" alt=""a * &amp; b
 c""></p>
 ".
 Proof. vm_compute. reflexivity. Qed.
+
+
+(* For every tree: the alt text is the concatenation, over the pre-order walk of the image's
+   subtree, of each node's own text (Text / decoded escape or reference content, line feed for
+   soft and hard breaks, nothing for containers) -- nothing is dropped, containers, links,
+   code spans and nested images are flattened to their text. *)
+Theorem C18_alt_is_walk : forall n d,
+  alt_text n = flat_map (fun p : node * N => text_of (n_kind (fst p))) (walk n d).
+Proof. exact alt_text_walk. Qed.
+
+(* that text is what the image issues as its alt attribute through the renderer interface *)
+Theorem C18_alt_attribute : forall m a e cs url title,
+  render_events (Node (KImage url title) m a e cs) =
+  inr [ESelfClose (bs "img")
+         (a ++ [(bs "src", url); (bs "alt", alt_text (Node (KImage url title) m a e cs))]
+            ++ match title with Some t => [(bs "title", t)] | None => [] end)].
+Proof. exact image_alt_attr. Qed.
+
+(* and it is exactly what the same inline content displays: for every inline subtree (leaf kinds
+   childless, no node attribute named alt) the displayed text of its renderer events -- text
+   events, a line feed per line-break event, the alt of nested images -- equals its alt text *)
+Theorem C18_alt_is_displayed_text : forall n,
+  inline_only n = true -> forall es, render_events n = inr es -> ev_text es = alt_text n.
+Proof. exact alt_is_displayed_text. Qed.
+
+Example C18_nonvacuous :
+  let d := mk (KEm 42) None [mk (KText (bs "a ")) None []; mk (KTextSpecial (bs "*") (bs "\*") false) None [];
+                             mk KSoftbreak None []; mk (KImage (bs "u") None) None [mk (KText (bs "in")) None []]] in
+  inline_only d = true /\ alt_text d = bs "a *" ++ [10] ++ bs "in".
+Proof. vm_compute. split; reflexivity. Qed.
+
+Print Assumptions C18_alt_is_walk.
+Print Assumptions C18_alt_attribute.
+Print Assumptions C18_alt_is_displayed_text.
